@@ -374,7 +374,10 @@ public:
 	static void parallel_for(int i0, int i1, const F& f, int nth = 8)
 	{
 		Array<Thread*> threads;
-		int n = (int)min((Long)nth, (Long)i1 - (Long)i0);
+		Long count = (Long)i1 - (Long)i0;
+		if (count <= 0 || nth <= 0) // nothing to do (a negative 64 bit width must not be truncated to int)
+			return;
+		int n = (int)min((Long)nth, count);
 		for (int i = 0; i<n; i++)
 		{
 			threads << new Thread;
